@@ -12,6 +12,8 @@ namespace vh
 Uci& the_uci();
 
 // ---------------------------------------------------------------- hook sink (mode A)
+struct AbortRun {};   // thrown from the sink to leave a search that ignores every stop
+
 struct SinkA
 {
     std::map<std::string, long> seen;
@@ -22,6 +24,7 @@ struct SinkA
     long visits = 0, visits_after_stop = 0, unwind_bound = 10000, visit_cap = 3000000;
     long max_depth_index = 0, max_ply = -1, search_depth_seen = 0, iters_started_after_stop = 0;
     long limits_fired = 0;
+    bool aborted = false;
     void reset() { *this = SinkA(); }
 };
 static SinkA SA;
@@ -42,10 +45,16 @@ static void sink_a(const char* id, int64_t a, int64_t b)
                 SA.lost_stop = true;          // the stop was not honoured: end the run with a second stop
                 if (SA.target) SA.target->stop();
             }
+            if (SA.visits_after_stop > 20 * SA.unwind_bound)
+            {
+                SA.aborted = true;            // not even the second stop is honoured: leave the search by unwinding
+                throw AbortRun();
+            }
         }
         if (SA.visits > SA.visit_cap && !SA.forced)
         {
             SA.forced = true;                 // the run does not end on its own within the cap
+            SA.stop_delivered = true;
             if (SA.target) SA.target->stop();
         }
     }
@@ -206,6 +215,80 @@ static bool has_mate_in_one(Position& p)
     return false;
 }
 
+// Untrusted exhaustive mate solver over the engine's own move generator (the generator is C01's subject).  It implements the
+// definitions of MateOracle.tla (CanMate / Doomed) and is used ONLY for announcements beyond the depth the specification's oracle
+// explores in TLC; on every announcement within that depth the monitor cross-checks its verdict against the specification's.
+// return: 1 yes, 0 no, -1 node budget exhausted
+static std::unordered_map<uint64_t, signed char> g_memo;
+static inline uint64_t memo_key(const Position& p, int n, int role) { return p.hash() * 0x9E3779B97F4A7C15ULL + uint64_t(n) * 2 + uint64_t(role); }
+static int solver_doomed(Position& p, int n, long& budget);
+static int solver_can_mate(Position& p, int n, long& budget)
+{
+    if (n < 1) return 0;
+    uint64_t k = memo_key(p, n, 0);
+    auto it = g_memo.find(k);
+    if (it != g_memo.end()) return it->second;
+    MoveVec mv;
+    mv.gen(p);
+    bool unknown = false;
+    int res = 0;
+    for (int i = 0; i < mv.n; ++i)
+    {
+        if (--budget < 0) return -1;
+        MoveInfo mi = p.do_move(mv.list[i]);
+        int r;
+        if (n == 1) r = p.is_in_check(p.color()) ? solver_doomed(p, 0, budget) : 0;   // only a checking move can mate at once
+        else r = solver_doomed(p, n - 1, budget);
+        p.undo_move(mv.list[i], mi);
+        if (r == 1) { res = 1; break; }
+        if (r == -1) unknown = true;
+    }
+    if (res == 0 && unknown) return -1;
+    g_memo[k] = (signed char)res;
+    return res;
+}
+static int solver_doomed(Position& p, int n, long& budget)
+{
+    MoveVec mv;
+    mv.gen(p);
+    if (mv.n == 0) return p.is_in_check(p.color()) ? 1 : 0;
+    if (n < 1) return 0;
+    uint64_t k = memo_key(p, n, 1);
+    auto it = g_memo.find(k);
+    if (it != g_memo.end()) return it->second;
+    bool unknown = false;
+    int res = 1;
+    for (int i = 0; i < mv.n; ++i)
+    {
+        if (--budget < 0) return -1;
+        MoveInfo mi = p.do_move(mv.list[i]);
+        int r = solver_can_mate(p, n, budget);
+        p.undo_move(mv.list[i], mi);
+        if (r == 0) { res = 0; break; }
+        if (r == -1) unknown = true;
+    }
+    if (res == 1 && unknown) return -1;
+    g_memo[k] = (signed char)res;
+    return res;
+}
+// verdict on a `score mate y` claim: "true" (mate within n <= |y| moves found), "false" (exhaustively none within |y| moves), "budget"
+static std::string solver_verdict(Position root, long y, int* n_found)
+{
+    long budget = 60000000;
+    g_memo.clear();
+    long lim = y > 0 ? y : -y;
+    if (lim == 0) return "false";
+    bool unknown = false;
+    for (int n = 1; n <= lim && n <= 6; ++n)
+    {
+        int r = y > 0 ? solver_can_mate(root, n, budget) : solver_doomed(root, n, budget);
+        if (r == 1) { *n_found = n; return "true"; }
+        if (r == -1) { unknown = true; break; }
+    }
+    if (unknown || lim > 6) return "budget";
+    return "false";
+}
+
 // run one search in-process and log it.  filter: "" = log every run; "mate" = log only runs whose output contains a mate
 // score or whose root has a mate in one according to the engine's own generator (a pre-filter for the expensive mate
 // oracle of the monitor: every mate announcement is logged, so none can escape), plus every keep_every-th other run
@@ -256,7 +339,7 @@ static void run_one(FILE* real_o, const RunSpec& r, std::mt19937_64& rng, const 
         SA.target = &s;
         if (r.stop_id == "before_thread_start") { SA.stop_delivered = true; s.stop(); }   // stop arrives before the search thread runs at all
         engine::verif::sink.store(sink_a);
-        s.go();
+        try { s.go(); } catch (const AbortRun&) { }   // hook points lie outside the output lock
         engine::verif::sink.store(nullptr);
         SA.target = nullptr;
     }
@@ -269,10 +352,28 @@ static void run_one(FILE* real_o, const RunSpec& r, std::mt19937_64& rng, const 
         g_last_root = root;
         g_last_best = q == std::string::npos ? "" : cap.str().substr(q + 9, cap.str().find('\n', q) - q - 9);
     }
+    std::string solver = "none";
+    int solver_n = 0;
+    long claim_y = 0;
+    if (filter == "mate")
+    {
+        // the final info line's mate claim, if any
+        std::string text = cap.str(), last;
+        std::istringstream in2(text);
+        std::string ln;
+        while (std::getline(in2, ln)) if (ln.rfind("info depth", 0) == 0) last = ln;
+        size_t q = last.find("score mate ");
+        if (q != std::string::npos)
+        {
+            claim_y = atol(last.c_str() + q + 11);
+            solver = solver_verdict(p, claim_y, &solver_n);
+        }
+    }
+    fprintf(o, "{\"e\":\"solver\",\"verdict\":%s,\"n\":%d,\"y\":%ld}\n", jstr(solver).c_str(), solver_n, claim_y);
     fprintf(o, "{\"e\":\"end\",\"bestcount\":%ld,\"infos\":%ld,\"stop_delivered\":%s,\"visits\":%ld,\"visits_after_stop\":%ld,\"lost_stop\":%s,\"forced\":%s,"
-               "\"max_depth_index\":%ld,\"max_ply\":%ld,\"search_depth\":%ld,\"iters_after_stop\":%ld,\"limits_fired\":%ld,\"ms\":%ld}\n",
+               "\"max_depth_index\":%ld,\"max_ply\":%ld,\"search_depth\":%ld,\"iters_after_stop\":%ld,\"limits_fired\":%ld,\"aborted\":%s,\"ms\":%ld}\n",
             nb, ni, jbool(SA.stop_delivered).c_str(), SA.visits, SA.visits_after_stop, jbool(SA.lost_stop).c_str(), jbool(SA.forced).c_str(),
-            SA.max_depth_index, SA.max_ply, SA.search_depth_seen, SA.iters_started_after_stop, SA.limits_fired, ms);
+            SA.max_depth_index, SA.max_ply, SA.search_depth_seen, SA.iters_started_after_stop, SA.limits_fired, jbool(SA.aborted).c_str(), ms);
     fclose(o);
     g_runs_total++;
     bool keep = true;
@@ -326,6 +427,7 @@ int cmd_search_runs(const Args& a)
 // ---------------------------------------------------------------- position pool (generator only)
 // lines: fen | legal moves | nmoves | incheck | mate1 | source      (positions with at least one legal move, not drawn)
 std::string random_material_fen(std::mt19937_64& rng, int kind);
+std::string random_attack_fen(std::mt19937_64& rng);
 int cmd_pool(const Args& a)
 {
     init_engine();
@@ -366,8 +468,84 @@ int cmd_pool(const Args& a)
         Position p(f);
         emit(p, "sparse");
     }
+    for (long k = 0; k < a.i("attack", 0); ++k)
+    {
+        std::string f = random_attack_fen(rng);
+        if (f.empty()) continue;
+        Position p(f);
+        emit(p, "attack");
+    }
     fclose(o);
     fprintf(stderr, "pool: %ld positions\n", n);
+    return 0;
+}
+
+// positions WITH a game history: lines  rootfen | moves | nmoves(final) | legal moves(final)
+// a random game prefix followed, half of the time, by an out-and-back manoeuvre (A, x, A back) so that the side to move can
+// re-enter a position of the history (repetition inside the search tree)
+int cmd_pool_hist(const Args& a)
+{
+    init_engine();
+    std::vector<std::string> roots = read_lines(a.s("roots"));
+    const int n = (int)a.i("n", 100), maxply = (int)a.i("maxply", 30);
+    std::mt19937_64 rng(a.i("seed", 1));
+    FILE* o = fopen(a.s("out").c_str(), "w");
+    long made = 0;
+    for (int g = 0; g < 20 * n && made < n; ++g)
+    {
+        std::string root = roots[rng() % roots.size()];
+        Position p(root);
+        std::vector<std::string> ms;
+        int len = int(rng() % uint64_t(maxply));
+        bool ok = true;
+        for (int i = 0; i < len && ok; ++i)
+        {
+            MoveVec mv;
+            mv.gen(p);
+            if (mv.n == 0 || p.is_draw()) { ok = false; break; }
+            Move m = mv.list[rng() % uint64_t(mv.n)];
+            ms.push_back(p.uci(m));
+            p.do_move(m);
+        }
+        if (!ok) continue;
+        if (rng() % 2)
+        {
+            // A (quiet piece move), x (quiet reply), A back
+            auto quiet = [&](Position& q, Move c) { return castling(c) == NO_CASTLING && promotion(c) == NO_PIECE_KIND && q.piece_at(to(c)) == NO_PIECE &&
+                                                          make_piece_kind(q.piece_at(from(c))) != PAWN && make_piece_kind(q.piece_at(from(c))) != KING; };
+            MoveVec m1;
+            m1.gen(p);
+            Move A = NO_MOVE, X = NO_MOVE;
+            for (int t = 0; t < 20 && A == NO_MOVE && m1.n; ++t) { Move c = m1.list[rng() % uint64_t(m1.n)]; if (quiet(p, c)) A = c; }
+            if (A == NO_MOVE) continue;
+            ms.push_back(p.uci(A));
+            p.do_move(A);
+            MoveVec m2;
+            m2.gen(p);
+            for (int t = 0; t < 20 && X == NO_MOVE && m2.n; ++t) { Move c = m2.list[rng() % uint64_t(m2.n)]; if (quiet(p, c)) X = c; }
+            if (X == NO_MOVE) continue;
+            ms.push_back(p.uci(X));
+            p.do_move(X);
+            Move Ab = create_move(to(A), from(A));
+            MoveVec m3;
+            m3.gen(p);
+            bool has = false;
+            for (int i = 0; i < m3.n; ++i) if (m3.list[i] == Ab) has = true;
+            if (!has) continue;
+            ms.push_back(p.uci(Ab));
+            p.do_move(Ab);
+        }
+        MoveVec mv;
+        mv.gen(p);
+        if (mv.n == 0 || p.is_draw()) continue;
+        std::string mstr, lstr;
+        for (auto& m : ms) mstr += (mstr.empty() ? "" : " ") + m;
+        for (int i = 0; i < mv.n; ++i) lstr += (i ? " " : "") + p.uci(mv.list[i]);
+        fprintf(o, "%s|%s|%d|%s\n", Position(root).fen().c_str(), mstr.c_str(), mv.n, lstr.c_str());
+        made++;
+    }
+    fclose(o);
+    fprintf(stderr, "pool-hist: %ld positions with history\n", made);
     return 0;
 }
 
